@@ -1,3 +1,5 @@
+import re
+
 from typing import Optional
 
 from pastel import Pastel
@@ -14,6 +16,9 @@ class AnsiFormatter(Formatter):
     """
     A formatter that replaces style tags by ANSI format codes.
     """
+
+    # The escape character of an escaped tag, cut off from the tag by format codes
+    _ESCAPE_BEFORE_CODES = re.compile(r"\\((?:\x1b\[[0-9;]*m)+<)")
 
     def __init__(self, style_set=None, forced=False):  # type: (StyleSet) -> None
         self._formatter = Pastel(True)
@@ -47,7 +52,9 @@ class AnsiFormatter(Formatter):
         if style is not None:
             self._formatter._style_stack.pop()
 
-        return formatted
+        # Pastel drops the escape character of "\\<tag>" only where no style is
+        # active; inside a style it ends up in front of the format codes
+        return self._ESCAPE_BEFORE_CODES.sub(r"\1", formatted)
 
     def remove_format(self, string):  # type: (str) -> str
         with self._formatter.colorized(False):
